@@ -31,6 +31,7 @@ def main : IO UInt32 := do
   | ["model", "index"] => loopState stdin stdout Index.driverStep {}
   | ["model", "msg"] => loopPure stdin stdout Msg.driverStep
   | ["model", "symexpr"] => loopState stdin stdout SymExpr.driverStep {}
+  | ["model", "loader"] => loopPure stdin stdout Loader.driverStep
   | _ => IO.eprintln s!"unknown model line: {first}"; return 2
   stdout.flush
   return 0
